@@ -323,6 +323,18 @@ pub fn scenarios(tier: &str) -> Vec<Scenario> {
         ]),
         m_reorg(0, RTarget::Back(1)),
         m_commit(1),
+        // refused bridge calls ("a withdrawal or transfer exceeding the balance fails and changes nothing" has a
+        // sibling: a call the block protocol refuses moves no tokens either). The model does not see them.
+        mac("refused: dep p1 ordi 7 carrying the hash of block 1", Kind::Dev(2), vec![Step::Bad(BadSpec::TxExistingHash { tx: dep(1, "ordi", "0x7"), height: 1 })]),
+        mac("refused: wd p1 ordi 1 carrying the hash of block 1", Kind::Dev(2), vec![Step::Bad(BadSpec::TxExistingHash { tx: wd(1, "ordi", "0x1"), height: 1 })]),
+        mac("refused: tok.transfer p1->p2 1 carrying the hash of block 0", Kind::Dev(2), vec![Step::Bad(BadSpec::TxExistingHash { tx: call_tok(1, 1, tok::transferCall { to: p2, value: u(1) }.abi_encode()), height: 0 })]),
+        mac("B(dep p1 ordi 1, refused: wd with another timestamp, refused: dep p2 9 at index+1, refused: dep with another hash)", Kind::Dev(2), vec![
+            Step::Tx(dep(1, "ordi", "0x1")),
+            Step::Bad(BadSpec::TxTimestamp { tx: wd(1, "ordi", "0x1") }),
+            Step::Bad(BadSpec::TxIdx { tx: dep(2, "ordi", "0x9"), idx: IdxSel::Plus1 }),
+            Step::Bad(BadSpec::TxHash { tx: dep(2, "ordi", "0x9") }),
+            Step::Fin,
+        ]),
     ];
     // start: initialised, token "ordi" created by a first deposit (so that its address is fixed)
     let mut base = vec![Step::Init];
@@ -344,7 +356,7 @@ pub fn scenarios(tier: &str) -> Vec<Scenario> {
             opts: opts.clone(),
             starts: vec![("initialised, 4 ordi deposited to p1".into(), base.clone())],
             alphabet: alpha,
-            bounds: Bounds { depth: if thorough { 5 } else { 4 }, dev: vec![1, 1], dev_total: 2 },
+            bounds: Bounds { depth: if thorough { 5 } else { 4 }, dev: vec![1, 1, 1], dev_total: 2 },
             weight: 4.0,
             network: "regtest".into(),
             traces: false,
